@@ -379,10 +379,20 @@ class Interp:
         out = []
         for s1, sv in self.ev(e["scrut"], st):
             # literal scrutinee: select statically when possible
+            remaining = None  # variants not yet taken by an earlier arm (for the catch-all)
             for arm in e["arms"]:
                 a = s1.fork()
                 lab = self.pat_label(arm["pat"])
                 scr = canon(sv)
+                # path feasibility: an earlier condition on the same scrutinee restricts the variants that can occur here
+                prior = [c[1] for c in s1.conds if c[0] == scr and isinstance(c[1], tuple)]
+                if prior and all(isinstance(x, str) and "::" in x for x in lab):
+                    allowed = set(prior[-1])
+                    if all(isinstance(x, str) and "::" in x for x in allowed):
+                        narrowed = tuple(x for x in lab if x in allowed)
+                        if not narrowed:
+                            continue
+                        lab = narrowed
                 a.conds = a.conds + ((scr, lab) + ((("attrs",) + tuple(arm["attrs"])) if arm.get("attrs") else ()),)
                 self.bind_pattern(arm["pat"], sv if isinstance(sv, dict) else H("opaque", "?"), a)
                 if arm["guard"] is not None:
